@@ -9,7 +9,7 @@ import run
 ns = {}
 exec(open(pf).read(), ns)
 REN = ns["RENAMES"]
-run.SCRATCH = "/tmp/wt/prober-%d" % os.getpid()
+run.SCRATCH = "/tmp/wtpriv/prober-%d" % os.getpid()
 q = queue.Queue()
 for p in REN:
     q.put(p)
